@@ -311,7 +311,13 @@ def run(ctx):
     n_files = ctx.scale(6, 60)
     for fno in range(n_files):
         gen = irgen.Gen(gtirb, rng, rng.choice([0.4, 0.8]))
-        ir0 = gen.build()
+        if fno % 3 == 2:
+            ir0 = gen.build()
+        else:
+            # every node kind and every reference kind present: each
+            # (reference role, wrong kind) fault is injected in this file
+            ir0 = irgen.build_rich(gtirb, rng, gen.size)
+        ctx.count("rich-ir" if irgen.is_rich(gtirb, ir0) else "plain-ir")
         if fno % 2 == 0:
             ms.add_aux(gen, gtirb, rng, ir0)
         raw = ms.save(ir0)
